@@ -273,10 +273,24 @@ def finally_paths_program(rng):
          "var bump = |x| { log.push([\"bump\", x]); return x + 1; };"]
     cleanups = ["note(\"c%(k)d\");", "res.release(%(k)d);", "bump(%(k)d);", "log.push([1, 2, 3].iter().map(|v| v * %(k)d).collect());",
                 "note(res.release(bump(%(k)d)));", "log.push(\"plain %(k)d\");"]   # nothing that declares a local: known finding K-exc-var-in-finally
+    # clean-up that may itself fail and deals with the failure on the spot (a try / catch inside the finally block, written
+    # there or in a function, a method or a closure it calls, failing by throw or by a built-in error): only in finally
+    # blocks that no exception passes through - with an exception in flight it is the known finding K-exc-try-in-finally
+    L += ["fn tolerant(k) { try { if k % 2 == 0 { throw [\"busy\", k]; } log.push([\"freed\", k]); } catch e { log.push([\"tolerated\", e]); } return k; }",
+          "fn tolerant_deep(k) { fn inner(j) { if j % 2 == 1 { return [j][j + 3]; } return j; } try { log.push(inner(k)); } catch e { log.push([\"deep\", type(e) == IndexError]); } }",
+          "var tolerant_closure = |k| { try { nil + k; } catch e { log.push([\"closure tolerated\", k]); } finally { log.push(\"closure finally\"); } };"]
+    tolerant = ["tolerant(%(k)d);", "tolerant(%(k)d + 1);", "tolerant_deep(%(k)d);", "tolerant_deep(%(k)d + 1);", "tolerant_closure(%(k)d);",
+                "try { throw \"direct %(k)d\"; } catch e { log.push([\"direct\", e]); }",
+                "try { log.push([0, 1][%(k)d + 2]); } catch e { log.push(\"direct index\"); }",
+                "try { note(\"quiet %(k)d\"); } catch e { log.push(\"never\"); }",
+                "for q in [%(k)d, %(k)d + 1] { tolerant(q); }" if False else "tolerant(tolerant(%(k)d) + 1);"]
     nf = r.range(2, 5)
     for k in range(nf):
         exitk = r.choice(["return_value", "return_bare", "fall", "throw", "return_call", "cond_return"])
-        cl = " ".join(r.choice(cleanups) % {"k": k} for _ in range(r.range(1, 2)))
+        pool = cleanups
+        if exitk != "throw" and "exc.try_in_finally_no_exception" not in getattr(r, "avoid", ()) and r.chance(60):
+            pool = cleanups + tolerant * 2
+        cl = " ".join(r.choice(pool) % {"k": k} for _ in range(r.range(1, 3)))
         body = {"return_value": "return [\"v\", a];", "return_bare": "if a > 0 { return; }", "fall": "note([\"fall\", a]);",
                 "throw": "throw [\"t\", a];", "return_call": "return note([\"rc\", a]);",
                 "cond_return": "if a == 1 { return \"one\"; } if a == 2 { return; } note(\"past\");"}[exitk]
